@@ -386,3 +386,29 @@ def gs1_strings(limit=600):
             out.append(f + sep + '21S1' + sep + '22V')
             out.append(f + sep + '400X' + sep + '401Y')
     return list(dict.fromkeys(out))[:limit]
+
+
+# ------------------------------------------------------------------------------------------ other lengths
+
+def length_variants(name, m, sv, limit=40):
+    """Valid canonical numbers of *other lengths* than the seeds (branches of the format that have no documented
+    example): the seed padded / truncated at either end by 1-4 characters, check position repaired."""
+    out = []
+    have = {len(v) for s_, v in sv}
+    for s_, v in sv[:3]:
+        n = len(v)
+        cands = []
+        for k in (1, 2, 3, 4):
+            cands += [v + '0' * k, '0' * k + v, v + '1' * k, v[:-k], v[k:], v[:n // 2] + '0' * k + v[n // 2:]]
+            if n > 2 * k:
+                cands.append(v[:n // 2 - k] + v[n // 2:])
+        for t in dict.fromkeys(cands):
+            if not t or len(t) in have and False:
+                continue
+            for u in _repair(m, t, None, table_check_positions(name, m, t))[:1]:
+                if len(u) not in {len(x) for x in out} | have or len([x for x in out if len(x) == len(u)]) < 3:
+                    if u not in out:
+                        out.append(u)
+            if len(out) >= limit:
+                return out
+    return out
